@@ -612,6 +612,31 @@ func assembleGen(args []string) {
 	r := kit.Rand(24)
 	layouts := []string{"whole", "v1", "v1nolink", "v2", "v2nolink", "ec", "ec", "ec"}
 	rules := [][2]int{{1, 1}, {2, 1}, {3, 1}, {2, 2}, {3, 2}, {4, 2}, {6, 3}, {3, 0}, {5, 4}, {1, 0}}
+	// fixed corner cases, independent of the seed
+	for _, c := range []asmCase{
+		{Layout: "ec", L: 0, K: 1, M: 1, Miss: []int{1}},
+		{Layout: "ec", L: 0, K: 2, M: 1, Miss: []int{2}},
+		{Layout: "ec", L: 700, K: 1, M: 1, Miss: []int{1}},
+		{Layout: "ec", L: 1001, K: 2, M: 2, Miss: []int{1, 2}},
+		{Layout: "ec", L: 1001, K: 2, M: 2, Miss: []int{3, 4}},
+		{Layout: "ec", L: 5, K: 4, M: 2, Miss: []int{2, 4}},
+		{Layout: "ec", L: 3, K: 4, M: 1, Miss: []int{}},
+		{Layout: "v1nolink", L: 2306, S: 1024},
+		{Layout: "v2nolink", L: 2306, S: 1024},
+		{Layout: "v1", L: 2049, S: 1024},
+		{Layout: "v2", L: 2049, S: 1024},
+	} {
+		var bounds []int
+		if c.S > 0 {
+			bounds = splitBounds(c.L, c.S)
+		} else if pl := (c.L + c.K - 1) / c.K; pl > 0 {
+			for j := 1; j < c.K; j++ {
+				bounds = append(bounds, j*pl)
+			}
+		}
+		c.Reads = readsFor(r, c.L, bounds, per)
+		w.Emit(c)
+	}
 	for i := 0; i < n; i++ {
 		c := asmCase{Layout: layouts[i%len(layouts)]}
 		c.S = 1024 * (1 + r.Intn(4))
